@@ -143,6 +143,7 @@ TypedArgBase* ArgumentContainer::findArg( const ArgumentKey& key) const
 
 
    TypedArgBase*  part_match = nullptr;
+   bool           ambiguous = false;
 
 
    for (auto const& argi : mArguments)
@@ -156,11 +157,15 @@ TypedArgBase* ArgumentContainer::findArg( const ArgumentKey& key) const
          if (part_match == nullptr)
             part_match = argi.data().get();
          else
-            throw runtime_error( "Long argument abbreviation '"
-                                 + format::toString( key)
-                                 + "' matches more than one argument");
+            ambiguous = true;
       } // end if
    } // end for
+
+   // an exact match (found above) takes precedence over abbreviations
+   if (ambiguous)
+      throw runtime_error( "Long argument abbreviation '"
+                           + format::toString( key)
+                           + "' matches more than one argument");
 
    return part_match;
 } // ArgumentContainer::findArg
